@@ -243,6 +243,115 @@ def tag_agreement(rep):
     rep.oblige(not outside and inside_end)
 
 
+def _eval_expr(e, env):
+    """values of a side-effect free test expression over a finite environment (names -> values)"""
+    if isinstance(e, ast.BoolOp):
+        val = None
+        for v in e.values:
+            val = _eval_expr(v, env)
+            if isinstance(e.op, ast.And) and not val:
+                return val
+            if isinstance(e.op, ast.Or) and val:
+                return val
+        return val
+    if isinstance(e, ast.UnaryOp) and isinstance(e.op, ast.Not):
+        return not _eval_expr(e.operand, env)
+    if isinstance(e, ast.UnaryOp) and isinstance(e.op, ast.USub):
+        return -_eval_expr(e.operand, env)
+    if isinstance(e, ast.Compare):
+        l = _eval_expr(e.left, env)
+        for op, c in zip(e.ops, e.comparators):
+            r = _eval_expr(c, env)
+            ok = {ast.Lt: lambda: l < r, ast.LtE: lambda: l <= r, ast.Gt: lambda: l > r, ast.GtE: lambda: l >= r,
+                  ast.Eq: lambda: l == r, ast.NotEq: lambda: l != r}.get(type(op))
+            if ok is None:
+                raise AnalysisError(f'unsupported comparison: {ast.unparse(e)}')
+            if not ok():
+                return False
+            l = r
+        return True
+    if isinstance(e, ast.Name):
+        if e.id not in env:
+            raise KeyError(e.id)
+        return env[e.id]
+    if isinstance(e, ast.Constant):
+        return e.value
+    if isinstance(e, ast.Subscript):
+        return _eval_expr(e.value, env)[_eval_expr(e.slice, env)]
+    if isinstance(e, ast.Call) and isinstance(e.func, ast.Name) and e.func.id == 'len' and len(e.args) == 1:
+        return len(_eval_expr(e.args[0], env))
+    if isinstance(e, ast.BinOp) and isinstance(e.op, (ast.Add, ast.Sub)):
+        a, b_ = _eval_expr(e.left, env), _eval_expr(e.right, env)
+        return a + b_ if isinstance(e.op, ast.Add) else a - b_
+    raise AnalysisError(f'unsupported node in test: {ast.unparse(e)}')
+
+
+def postfix_reduction(rep):
+    """When a postfix operator arrives, every pending operator of a tighter (earlier) row is reduced
+    first - however many there are - and nothing else decides: the emitted loop test is evaluated for
+    every stack depth 0..3, every relation of the top's row to the postfix row, and every value of
+    any other variable it mentions."""
+    w = SK.World()
+    rep.rule('C02-postfix-reduce', 'before a postfix operator is attached the operator stack is reduced while - and '
+                                   'only while - its top belongs to a tighter row; the test depends on nothing else')
+    cfg = SK.Config('OperatorTable', ['o', [], SK.A('pre', 'CP'), SK.A('opd', 'CP'), SK.A('post', 'CP'),
+                                      SK.A('inf', 'CP')], {}, {}, label='OperatorTable:postfix')
+    b = w.build(cfg)
+    where = 'sourcer/expressions/operator_table.py:OperatorTable._compile'
+    # the loop that pops the operator stack between the postfix child and the Postfix(...) node
+    cands = []
+    for node in ast.walk(b.tree):
+        if isinstance(node, ast.While) and not (isinstance(node.test, ast.Constant)):
+            if any(isinstance(n, ast.Call) and isinstance(n.func, ast.Attribute) and n.func.attr == 'pop'
+                   for n in ast.walk(node)):
+                cands.append(node)
+    # among them the one followed (in its parent block) by the construction of Postfix(...)
+    loop = None
+    for parent in ast.walk(b.tree):
+        for field in ('body', 'orelse'):
+            blk = getattr(parent, field, None)
+            if not isinstance(blk, list):
+                continue
+            for i, st in enumerate(blk):
+                if st in cands and any('Postfix' in ast.unparse(x) for x in blk[i + 1:i + 4]):
+                    loop = st
+    if loop is None:
+        raise AnalysisError('OperatorTable skeleton: reduction loop before the postfix node not found')
+    names = {n.id for n in ast.walk(loop.test) if isinstance(n, ast.Name)} - {'len'}
+    stack = next((n for n in names if 'stack' in n), None)
+    popped = {n.func.value.id for n in ast.walk(loop) if isinstance(n, ast.Call) and isinstance(n.func, ast.Attribute)
+              and n.func.attr == 'pop' and isinstance(n.func.value, ast.Name)}
+    stack = next((n for n in names if n in popped), stack)
+    if stack is None or '_result' not in names:
+        raise AnalysisError(f'OperatorTable skeleton: cannot read the postfix reduction test `{ast.unparse(loop.test)}`')
+    others = sorted(names - {stack, '_result'})
+    import itertools
+    n = 0
+    for depth in range(0, 4):
+        for rel, (top, cur) in {'tighter': (3, 5), 'same': (5, 5), 'looser': (7, 5)}.items():
+            for vals in itertools.product(range(0, 4), repeat=len(others)):
+                env = {stack: [(1, 1, 'x')] * max(depth - 1, 0) + ([(top, 1, 'x')] if depth else []),
+                       '_result': (cur, 'op')}
+                env.update(dict(zip(others, vals)))
+                try:
+                    got = bool(_eval_expr(loop.test, env))
+                except (KeyError, IndexError, TypeError) as e:
+                    raise AnalysisError(f'OperatorTable skeleton: postfix reduction test not evaluable: {e!r}')
+                want = depth > 0 and rel == 'tighter'
+                n += 1
+                rep.oblige(got == want)
+                if got != want:
+                    rep.add(Finding('C02-postfix-reduce', 'OperatorTable', '',
+                                    f'postfix operator arriving with {depth} pending operator(s), top of a {rel} row'
+                                    + (f', {dict(zip(others, vals))}' if others else '') +
+                                    f': the emitted test `{ast.unparse(loop.test)}` says '
+                                    f'{"reduce" if got else "stop"}, the rows dictate {"reduce" if want else "stop"} '
+                                    f'(a postfix operator of a later row wraps everything tighter that is pending)',
+                                    where, {'skeleton': b.src}))
+                    return
+    rep.count('postfix reduction cases evaluated', n)
+
+
 def longest_ties(rep):
     """Among rows matching at the same place the longest match wins, first on ties: the
     emitted update test is a strict `<` on the position."""
